@@ -1,31 +1,33 @@
 import FP.Model.Enc.MGS
 import FP.Proofs.GenSetSpec
 /-!
-# FP.Proofs.MGSPre — `remove_complement_values` (multiplicity 1) does not change which multisets generate
-the input: every removed value is `0`, `total`, or the complement `total − v` of a kept/generated value.
+# FP.Proofs.MGSPre — `remove_complement_values` does not change which multisets generate the input, for
+every multiplicity: a removed value is `0`, `total`, or — only for multiplicity 1 (fix 20bda28) — the
+complement `total − v` of a kept/generated value.
 -/
 namespace FP.GS
 open FP.Spec
 
 /-- the values the constructor collects in `elements_to_remove` -/
-def mgsToRemove (numbers : List Rat) (total : Rat) : List Rat :=
+def mgsToRemove (numbers : List Rat) (total : Rat) (mult : Nat) : List Rat :=
   numbers.flatMap fun v =>
-    (if numbers.contains (total - v) && decide (total - v > v) then [total - v] else [])
+    (if decide (mult = 1) && numbers.contains (total - v) && decide (total - v > v) then [total - v] else [])
     ++ (if v == total || v == 0 then [v] else [])
 
-theorem mgsPreprocess_true (numbers : List Rat) (total : Rat) :
-    mgsPreprocess numbers total true
-      = numbers.eraseDups.filter fun v => !(mgsToRemove numbers total).contains v := rfl
+theorem mgsPreprocess_true (numbers : List Rat) (total : Rat) (mult : Nat) :
+    mgsPreprocess numbers total true mult
+      = numbers.eraseDups.filter fun v => !(mgsToRemove numbers total mult).contains v := rfl
 
-theorem mem_toRemove (numbers : List Rat) (total a : Rat) (h : a ∈ mgsToRemove numbers total) :
-    (∃ v ∈ numbers, a = total - v ∧ v < a) ∨ a = total ∨ a = 0 := by
+theorem mem_toRemove (numbers : List Rat) (total a : Rat) (mult : Nat)
+    (h : a ∈ mgsToRemove numbers total mult) :
+    (mult = 1 ∧ ∃ v ∈ numbers, a = total - v ∧ v < a) ∨ a = total ∨ a = 0 := by
   obtain ⟨v, hv, hm⟩ := List.mem_flatMap.1 h
   rcases List.mem_append.1 hm with h1 | h2
   · split at h1
     · rename_i hc
       simp only [Bool.and_eq_true, decide_eq_true_eq] at hc
       rw [List.mem_singleton.1 h1]
-      exact Or.inl ⟨v, hv, rfl, hc.2⟩
+      exact Or.inl ⟨hc.1.1, v, hv, rfl, hc.2⟩
     · simp at h1
   · split at h2
     · rename_i hc
@@ -36,35 +38,36 @@ theorem mem_toRemove (numbers : List Rat) (total a : Rat) (h : a ∈ mgsToRemove
       · exact Or.inr (Or.inr h)
     · simp at h2
 
-theorem mem_preprocess (numbers : List Rat) (total a : Rat) :
-    a ∈ mgsPreprocess numbers total true ↔ a ∈ numbers ∧ a ∉ mgsToRemove numbers total := by
+theorem mem_preprocess (numbers : List Rat) (total a : Rat) (mult : Nat) :
+    a ∈ mgsPreprocess numbers total true mult ↔ a ∈ numbers ∧ a ∉ mgsToRemove numbers total mult := by
   rw [mgsPreprocess_true, List.mem_filter, List.mem_eraseDups]
   simp
 
-/-- **complement removal is sound for multiplicity 1**: a multiset with sum `total` generates the
-preprocessed list iff it generates the original list -/
-theorem preprocess_generates_iff (numbers : List Rat) (total : Rat) (rc : Bool) (g : List Rat)
-    (hs : g.sum = total) :
-    (∀ a ∈ mgsPreprocess numbers total rc, Generates g 1 a) ↔ (∀ a ∈ numbers, Generates g 1 a) := by
+/-- **the constructor's preprocessing is sound for every multiplicity ≥ 1**: a multiset with sum `total`
+generates the preprocessed list iff it generates the original list -/
+theorem preprocess_generates_iff (numbers : List Rat) (total : Rat) (rc : Bool) (mult : Nat) (hm : 1 ≤ mult)
+    (g : List Rat) (hs : g.sum = total) :
+    (∀ a ∈ mgsPreprocess numbers total rc mult, Generates g mult a) ↔ (∀ a ∈ numbers, Generates g mult a) := by
   cases rc with
   | false => simp [mgsPreprocess]
   | true =>
     constructor
     · intro h
-      -- values that are kept, or trivially generated
-      have hbase : ∀ v ∈ numbers, v ∉ mgsToRemove numbers total ∨ v = total ∨ v = 0 → Generates g 1 v := by
+      have hbase : ∀ v ∈ numbers, v ∉ mgsToRemove numbers total mult ∨ v = total ∨ v = 0 →
+          Generates g mult v := by
         intro v hv hcase
         rcases hcase with h1 | h1 | h1
-        · exact h v ((mem_preprocess numbers total v).2 ⟨hv, h1⟩)
-        · rw [h1, ← hs]; exact generates_sum g 1 (Nat.le_refl _)
-        · rw [h1]; exact generates_zero g 1
+        · exact h v ((mem_preprocess numbers total v mult).2 ⟨hv, h1⟩)
+        · rw [h1, ← hs]; exact generates_sum g mult hm
+        · rw [h1]; exact generates_zero g mult
       intro a ha
-      by_cases hr : a ∈ mgsToRemove numbers total
-      · rcases mem_toRemove numbers total a hr with ⟨v, hv, rfl, hlt⟩ | h1 | h1
-        · -- a = total - v with v < a: v itself is kept or trivial
+      by_cases hr : a ∈ mgsToRemove numbers total mult
+      · rcases mem_toRemove numbers total a mult hr with ⟨h1m, v, hv, rfl, hlt⟩ | h1 | h1
+        · -- multiplicity 1, a = total - v with v < a: v itself is kept or trivial
+          subst h1m
           have hgv : Generates g 1 v := by
-            by_cases hrv : v ∈ mgsToRemove numbers total
-            · rcases mem_toRemove numbers total v hrv with ⟨u, _, hvu, hult⟩ | h1 | h1
+            by_cases hrv : v ∈ mgsToRemove numbers total 1
+            · rcases mem_toRemove numbers total v 1 hrv with ⟨_, u, _, hvu, hult⟩ | h1 | h1
               · exfalso; grind
               · exact hbase v hv (Or.inr (Or.inl h1))
               · exact hbase v hv (Or.inr (Or.inr h1))
@@ -75,14 +78,15 @@ theorem preprocess_generates_iff (numbers : List Rat) (total : Rat) (rc : Bool) 
         · exact hbase a ha (Or.inr (Or.inr h1))
       · exact hbase a ha (Or.inl hr)
     · intro h a ha
-      exact h a ((mem_preprocess numbers total a).1 ha).1
+      exact h a ((mem_preprocess numbers total a mult).1 ha).1
 
-theorem preprocess_isGenSet_iff (numbers : List Rat) (total : Rat) (rc : Bool) (g : List Rat) :
-    IsGenSet g total (mgsPreprocess numbers total rc) 1 ↔ IsGenSet g total numbers 1 := by
+theorem preprocess_isGenSet_iff (numbers : List Rat) (total : Rat) (rc : Bool) (mult : Nat) (hm : 1 ≤ mult)
+    (g : List Rat) :
+    IsGenSet g total (mgsPreprocess numbers total rc mult) mult ↔ IsGenSet g total numbers mult := by
   constructor
   · rintro ⟨h1, h2, h3⟩
-    exact ⟨h1, h2, (preprocess_generates_iff numbers total rc g h1).1 h3⟩
+    exact ⟨h1, h2, (preprocess_generates_iff numbers total rc mult hm g h1).1 h3⟩
   · rintro ⟨h1, h2, h3⟩
-    exact ⟨h1, h2, (preprocess_generates_iff numbers total rc g h1).2 h3⟩
+    exact ⟨h1, h2, (preprocess_generates_iff numbers total rc mult hm g h1).2 h3⟩
 
 end FP.GS
